@@ -222,9 +222,24 @@ func relabelSignature(q *query, trees []*refTree) bool {
 	return false
 }
 
+// impossiblePath: (index,total) names no leaf, or the number of aunts is not the depth of that leaf — the cases in
+// which a path recomputation has no result at all.
+func impossiblePath(p *merkle.Proof) bool {
+	s, ok := refShape(p.Index, p.Total)
+	return !ok || len(s) != len(p.Aunts)
+}
+
+// emptyRootSignature is the exact signature of finding C10-verify-empty-root: the root checked against is empty/nil,
+// the path is impossible (no root can be recomputed) and the leaf hash is the item's.
+func emptyRootSignature(q *query) bool {
+	return len(q.root) == 0 && impossiblePath(&q.proof) && bytes.Equal(q.proof.LeafHash, refLeafHash(q.item))
+}
+
 const (
-	idRelabel = "C10-proof-relabel"
-	idAddPart = "C10-addpart-index-mismatch"
+	idEmptyRoot   = "C10-verify-empty-root"
+	idEmptyReader = "C10-empty-partset-reader-panic"
+	idRelabel     = "C10-proof-relabel"
+	idAddPart     = "C10-addpart-index-mismatch"
 )
 
 // ---------------------------------------------------------------------------------------------------------------
@@ -280,7 +295,7 @@ var mutGroups = [][]string{
 }
 
 // rootGroup additionally changes the root the proof is checked against (raw Proof.Verify / TxProof only).
-var rootGroup = []string{"subtree-as-tree", "root-other", "root-flip"}
+var rootGroup = []string{"subtree-as-tree", "root-other", "root-flip", "root-empty", "root-nil", "root-short"}
 
 func pickMut(c chooser, withRoot bool) string {
 	ng := len(mutGroups)
@@ -517,6 +532,15 @@ func mutate(c chooser, q *query, kind string, base *refTree, g int, other *refTr
 		p.Index, p.Total = x.index, x.total
 	case "root-other":
 		q.root = cloneBytes(other.root)
+	case "root-empty":
+		// a legal value wherever a hash may be absent (PartSetHeader.ValidateBasic, header hashes): it is the root of no tree
+		q.root = []byte{}
+	case "root-nil":
+		q.root = nil
+	case "root-short":
+		if len(q.root) > 1 {
+			q.root = cloneBytes(q.root[:c.Int(1, len(q.root)-1, "rootlen")])
+		}
 	case "root-flip":
 		q.root = flipBit(c, q.root, "bit")
 	case "subtree-as-tree":
